@@ -13,7 +13,7 @@ ID = "C05"
 MODEL_OP = "world_coords"
 RULE = ("non-cubic cubes of 1-4 dims over the exact probe family (separable / coupled / extra world axis), FITS (separable, "
         "celestial, rotated), gWCS tables, and sliced / rebinned cubes; wcs choice in {wcs, extra_coords, combined_wcs} with "
-        "0-2 Quantity/Time extra coords; axes: none, every kind of non-empty subset as ints of both signs, unique "
+        "0-3 Quantity/Time extra coords (often several on one axis); axes: none, every kind of non-empty subset as ints of both signs, unique "
         "physical-type substrings; both pixel_corners; values form and high-level form. Non-trivial = always (every case "
         "evaluates at least one coordinate array); distinct = whole case")
 TRUSTED = ["low_level_wcs.pixel_to_world_values on np.indices grids is the reference", "astropy high_level_objects_to_values for the high-level form"]
@@ -30,9 +30,12 @@ def generate(rng, tier):
     for _ in range(n):
         nd = rng.choice([1, 2, 2, 3, 3, 4])
         shape = rng.sample([2, 3, 4, 5], nd) if nd <= 4 else [2, 3, 4, 5]
-        necs = rng.choice([0, 0, 1, 2])
+        necs = rng.choice([0, 0, 1, 2, 2, 3])
         ecs = [{"axis": rng.randrange(nd), "kind": rng.choice(["quantity", "time"])} for _ in range(necs)]
-        which = rng.choice(["wcs", "wcs", "combined_wcs", "extra_coords"]) if necs else "wcs"
+        for e in ecs[1:]:
+            if rng.random() < 0.5:
+                e["axis"] = ecs[0]["axis"]            # several tables on one array axis
+        which = rng.choice(["wcs", "wcs", "combined_wcs", "extra_coords", "extra_coords"]) if necs else "wcs"
         r = rng.random()
         if r < 0.3:
             axes = None
